@@ -72,6 +72,15 @@ const (
 
 var allocSample = []metrics.Sample{{Name: "/gc/heap/allocs:bytes"}}
 
+var stackSample = []metrics.Sample{{Name: "/memory/classes/heap/stacks:bytes"}}
+
+// stackBytes: memory in goroutine stacks. A stack that has grown stays grown until a later collection
+// shrinks it, so the difference around a call (made on a fresh goroutine) is the stack the call needed.
+func stackBytes() uint64 {
+	metrics.Read(stackSample)
+	return stackSample[0].Value.Uint64()
+}
+
 func heapAllocs() uint64 {
 	metrics.Read(allocSample)
 	return allocSample[0].Value.Uint64()
@@ -218,6 +227,7 @@ type c14Result struct {
 	class, key, detail string
 	steps              uint64
 	alloc              uint64
+	stack              uint64
 	readsAfter         int
 	errs               int
 	values             int
@@ -306,63 +316,78 @@ func c14DecodeOnce(entry int, data []byte, tail error, tm map[string]reflect.Typ
 			_ = v
 		})
 	}
-	switch entry {
-	case c14ToObject:
-		call(func() (interface{}, error) { return hessian.ToObject(data, tm) })
-	case c14DecoderDecode:
-		var d *hessian.Decoder
-		if !guard(func() { d = hessian.NewDecoder(nil, tm) }) {
-			call(func() (interface{}, error) { return d.Decode(data) })
-		}
-	case c14ReadFrom:
-		var d *hessian.Decoder
-		rd = NewSimReader(data, tail)
-		rd.ZeroEvery = c14ZeroEvery
-		if !guard(func() { d = hessian.NewDecoder(nil, tm) }) {
-			call(func() (interface{}, error) { return d.ReadFrom(rd) })
-		}
-	case c14StreamBufio:
-		rd = NewSimReader(data, tail)
-		rd.ZeroEvery = c14ZeroEvery
-		var d *hessian.Decoder
-		if !guard(func() { d = hessian.NewDecoder(bufio.NewReaderSize(rd, bufSize), tm) }) {
-			for i := 0; i < K; i++ {
-				if call(d.ReadObject) {
-					break
+	// the decode runs on a goroutine of its own: its stack starts small, so the growth of the memory in
+	// goroutine stacks around it is the stack this decode needed (recursion depth x frame size)
+	var stackGrowth uint64
+	decodeDone := make(chan struct{})
+	go func() {
+		defer close(decodeDone)
+		s0 := stackBytes()
+		defer func() {
+			if s1 := stackBytes(); s1 > s0 {
+				stackGrowth = s1 - s0
+			}
+		}()
+		switch entry {
+		case c14ToObject:
+			call(func() (interface{}, error) { return hessian.ToObject(data, tm) })
+		case c14DecoderDecode:
+			var d *hessian.Decoder
+			if !guard(func() { d = hessian.NewDecoder(nil, tm) }) {
+				call(func() (interface{}, error) { return d.Decode(data) })
+			}
+		case c14ReadFrom:
+			var d *hessian.Decoder
+			rd = NewSimReader(data, tail)
+			rd.ZeroEvery = c14ZeroEvery
+			if !guard(func() { d = hessian.NewDecoder(nil, tm) }) {
+				call(func() (interface{}, error) { return d.ReadFrom(rd) })
+			}
+		case c14StreamBufio:
+			rd = NewSimReader(data, tail)
+			rd.ZeroEvery = c14ZeroEvery
+			var d *hessian.Decoder
+			if !guard(func() { d = hessian.NewDecoder(bufio.NewReaderSize(rd, bufSize), tm) }) {
+				for i := 0; i < K; i++ {
+					if call(d.ReadObject) {
+						break
+					}
+				}
+			}
+		case c14StreamDirect:
+			rd = NewSimReader(data, tail)
+			rd.ZeroEvery = c14ZeroEvery
+			var d *hessian.Decoder
+			if !guard(func() { d = hessian.NewDecoder(rd, tm) }) {
+				for i := 0; i < K; i++ {
+					if call(d.ReadObject) {
+						break
+					}
+				}
+			}
+		case c14SerToObject:
+			var s hessian.Serializer
+			if !guard(func() { s = hessian.NewSerializer(tm, nil) }) {
+				call(func() (interface{}, error) { return s.ToObject(data) })
+			}
+		case c14SerReadFromRead:
+			var s hessian.Serializer
+			rd = NewSimReader(data, tail)
+			rd.ZeroEvery = c14ZeroEvery
+			if !guard(func() { s = hessian.NewSerializer(tm, nil) }) && !call(func() (interface{}, error) { return s.ReadFrom(rd) }) {
+				for i := 1; i < K; i++ {
+					if call(s.Read) {
+						break
+					}
 				}
 			}
 		}
-	case c14StreamDirect:
-		rd = NewSimReader(data, tail)
-		rd.ZeroEvery = c14ZeroEvery
-		var d *hessian.Decoder
-		if !guard(func() { d = hessian.NewDecoder(rd, tm) }) {
-			for i := 0; i < K; i++ {
-				if call(d.ReadObject) {
-					break
-				}
-			}
-		}
-	case c14SerToObject:
-		var s hessian.Serializer
-		if !guard(func() { s = hessian.NewSerializer(tm, nil) }) {
-			call(func() (interface{}, error) { return s.ToObject(data) })
-		}
-	case c14SerReadFromRead:
-		var s hessian.Serializer
-		rd = NewSimReader(data, tail)
-		rd.ZeroEvery = c14ZeroEvery
-		if !guard(func() { s = hessian.NewSerializer(tm, nil) }) && !call(func() (interface{}, error) { return s.ReadFrom(rd) }) {
-			for i := 1; i < K; i++ {
-				if call(s.Read) {
-					break
-				}
-			}
-		}
-	}
+	}()
+	<-decodeDone
 	a1 := heapAllocs()
 	res.steps = clock.steps
-	res.alloc = a1 - a0
+	res.alloc = a1 - a0 + stackGrowth
+	res.stack = stackGrowth
 	if rd != nil {
 		res.readsAfter = rd.ReadsAfter
 	}
@@ -385,8 +410,8 @@ func c14DecodeOnce(entry int, data []byte, tail error, tm map[string]reflect.Typ
 	if res.alloc > ab && res.class == "" {
 		res.class = "c14/alloc"
 		res.key = "heap"
-		res.detail = fmt.Sprintf("%d bytes allocated while decoding %d input bytes (budget %d = 1 MiB + 30 x the largest ratio on undamaged streams, %.0f B/byte)",
-			res.alloc, len(data), ab, c14cal.allocRatio)
+		res.detail = fmt.Sprintf("%d bytes allocated (of which %d bytes of goroutine stack) while decoding %d input bytes (budget %d = 1 MiB + 30 x the largest ratio on undamaged streams, %.0f B/byte)",
+			res.alloc, res.stack, len(data), ab, c14cal.allocRatio)
 	}
 	hessian.VfStep = clockStep
 	return res
